@@ -1,4 +1,5 @@
-import PysersicModel.Prob.Prior
+import PysersicModel.Prob.Fitter
+import PysersicModel.Driver.Loss
 import PysersicModel.Gen.Consts
 import PysersicModel.Driver.Render
 
@@ -136,5 +137,45 @@ def multiPriorCmd (args : List String) : String :=
       let th ← fltP
       pure (⟨t, pos == "1", flux, r, x, y, th⟩ : CatRow Float))
     pure (showEntries (multiPrior Gen.priorConsts sfx sky sg se rows))) args "multiprior-args"
+
+/-- parse an entry description: `name family loc scale LOW HIGH` -/
+def entryP : Pr (String × Dist Float) := do
+  let name ← tok
+  let fam ← tok
+  let loc ← fltP
+  let sc ← fltP
+  let lo ← optFltP
+  let hi ← optFltP
+  let base : Dist Float ← match fam with
+    | "normal" => pure (Dist.normal 0.0 1.0)
+    | "uniform" => pure (Dist.uniform 0.0 1.0)
+    | "truncnormal" => pure (Dist.truncNormal 0.0 1.0 lo hi)
+    | _ => failure
+  pure (name, Dist.affine base loc sc)
+
+/-- `sites LOSS SUFFIX RETURNMODEL NENT (entry)*` → every site of the fitter model as `name:kind` -/
+def sitesCmd (args : List String) : String :=
+  run (do
+    let lossS ← tok
+    let loss ← match parseLossKind lossS with
+      | some k => pure k
+      | none => failure
+    let sfx ← suffixP
+    let rm ← tok
+    let n ← natP
+    let ents ← manyP n entryP
+    let ss := fitterSites (α := Float) Gen.lossConsts ents loss sfx (rm == "1")
+    pure (" ".intercalate (ss.map fun s =>
+      s.1 ++ ":" ++ (match s.2 with | .latent => "latent" | .deterministic => "deterministic" | .observed => "observed")))) args "sites-args"
+
+/-- `baselp NENT (entry z)*` → per entry: base log-density at z and the exposed value -/
+def baseLpCmd (args : List String) : String :=
+  run (do
+    let n ← natP
+    let rows ← manyP n (do
+      let e ← entryP
+      let z ← fltP
+      pure s!"{e.1}={showF (e.2.baseOf.logProb z)}:{showF (e.2.fromBase z)}")
+    pure (" ".intercalate rows)) args "baselp-args"
 
 end Pysersic.Driver
